@@ -64,6 +64,8 @@ class StochHooks(Hooks):
             # "a deterministic function of its arguments and seed": the same call on clones in a process that never ran anything else
             pending, self.pending_fresh = self.pending_fresh, None
             it.probe('pristine_process_comparison')
+            if tag.get('twin'):
+                it.probe('one_argument_twin')
             fresh.judge(it, i, ev, out, pending, 'C18.repro', {'fn': fn, 'what': 'pristine-process'})
         if fn in SEEDED and out.ok:
             # repeat = first (F6) and a different seed gives a different draw
@@ -129,6 +131,11 @@ class StochHooks(Hooks):
                        'shot_noise refused a valid signal: %r' % (out.exc,), i)
             return
         r = np.asarray(out.value, dtype=float)
+        if r.shape == img.shape and np.any(img == 0):
+            it.probe('shot_zero_signal_pixels')
+            if np.any(r[img == 0] != 0):
+                it.violate('C18.support', {'fn': 'shot_noise', 'method': method, 'what': 'counts-where-there-is-no-signal'},
+                           'pixels with exactly zero signal came back as %s' % np.unique(r[img == 0])[:4], i)
         regime = method == 'poisson' or (img.size and np.min(img) >= 1000)
         if r.shape != img.shape:
             it.violate('C18.support', {'fn': 'shot_noise', 'method': method, 'what': 'shape'}, 'shape %s for signal %s' % (r.shape, img.shape), i)
@@ -159,6 +166,12 @@ class StochHooks(Hooks):
         if r.shape != img.shape or not np.all(np.isfinite(r)):
             it.violate('C18.support', {'fn': 'read_noise', 'what': 'shape-or-finite'}, 'shape %s finite %s' % (r.shape, np.all(np.isfinite(r))), i)
             return
+        if ev.get('t', {}).get('mega'):
+            it.probe('read_noise_megapixel_frame')
+            rows = np.std(r - img, axis=1)
+            if np.any(rows == 0):
+                it.violate('C18.moments', {'fn': 'read_noise', 'what': 'rows-without-noise'}, '%d of %d rows of a %s frame received no noise at all'
+                           % (int(np.sum(rows == 0)), rows.size, r.shape), i)
         if img.size >= 4096 and sigma > 0:
             noise = r - img
             n = img.size
@@ -260,7 +273,7 @@ class StochasticScenario(Scenario):
                    'seed=None (OS entropy) is never used: the simulator always passes seeds']
     must_hit = ['seeded_after_reseed', 'psd_nonsquare', 'psd_square', 'shot_bad_signal:gaussian', 'shot_bad_signal:poisson',
                 'moments:shot_poisson', 'moments:shot_gaussian', 'moments:read', 'dark_no_fpn', 'cosmic_hit', 'layout_twin',
-                'shot_tiny_negative', 'dark_rate_at_an_edge', 'pristine_process_comparison', 'shot_frame_edited_between_calls', 'seed_beyond_32_bits']
+                'shot_tiny_negative', 'dark_rate_at_an_edge', 'pristine_process_comparison', 'shot_frame_edited_between_calls', 'seed_beyond_32_bits', 'one_argument_twin', 'shot_zero_signal_pixels', 'read_noise_megapixel_frame']
     probe_names = must_hit + ['coldwarm_audit']
 
     # ---------------------------------------------------------------- generation
@@ -287,6 +300,9 @@ class StochasticScenario(Scenario):
         ev.append({'c': -1, 'fn': 'array', 'id': 'NEGT', 'recipe': {'kind': 'set', 'x': {'kind': 'const', 'shape': 'F', 'value': bg},
                                                                     'pixels': [[0, 0, peak], [rng.randint(0, 2), rng.randint(1, 2), neg]]}})
         ev.append({'c': -1, 'fn': 'array', 'id': 'NEGALL', 'recipe': {'kind': 'const', 'shape': 'F', 'value': rng.choice([-3.0, -1e-9, -2000.0])}})
+        # a bright frame with a dark corner of exactly zero signal (shot noise of no signal is no counts, in both methods)
+        ev.append({'c': -1, 'fn': 'array', 'id': 'ZER', 'recipe': {'kind': 'set', 'x': {'kind': 'uniform', 'shape': 'F', 'lo': 5000.0, 'hi': 40000.0, 'seed': 5},
+                                                                   'pixels': [[0, 0, 0.0], [0, 1, 0.0], [1, 0, 0.0], [2, 2, 0.0]]}})
         # integer-typed electron frames (read noise must still be zero-mean with the requested sigma)
         ev.append({'c': -1, 'fn': 'array', 'id': 'IMGI', 'recipe': {'kind': 'integers', 'shape': 'F', 'lo': 100, 'hi': 5000, 'seed': rng.randrange(10 ** 6),
                                                                     'dtype': rng.choice(['int32', 'int64', 'uint16'])}})
@@ -329,6 +345,19 @@ class StochasticScenario(Scenario):
             return s_
 
         for _ in range(n):
+            if out and out[-1].get('fn') in SEEDED and not out[-1].get('t', {}).get('twin') and rng.random() < 0.2:
+                # the same call with exactly one other argument (same seed, same shape): state left behind by the first must not carry over
+                d = copy.deepcopy(out[-1])
+                cands = [('k', k_) for k_, v_ in d.get('k', {}).items() if k_ != 'seed' and isinstance(v_, (int, float)) and not isinstance(v_, bool)] + \
+                        [('a', j_) for j_, v_ in enumerate(d.get('a', [])) if isinstance(v_, (int, float)) and not isinstance(v_, bool)]
+                if cands:
+                    where, key = rng.choice(cands)
+                    v_ = d[where][key]
+                    d[where][key] = (v_ * 2 + 0.1) if v_ else 0.3
+                    cnt[0] += 1
+                    d['id'] = 'c%d_r%d' % (c, cnt[0])
+                    d['t'] = {'twin': True, 'fresh': True}
+                    out.append(d)
             if out and out[-1].get('fn') in ('read_noise', 'power_spectrum') and isinstance(out[-1].get('k', {}).get('seed'), int) and rng.random() < 0.25:
                 # the same call with a seed that differs only beyond the low 32 (or 64) bits: a different seed, a different draw
                 d = copy.deepcopy(out[-1])
@@ -353,8 +382,8 @@ class StochasticScenario(Scenario):
                 continue
             if r < 0.3:
                 method = rng.choice(['poisson', 'gaussian'])
-                img = rng.choice(['FLAT', 'IMG', 'IMGL', 'FLATG', 'NEG', 'HUGE', 'HUGE2', 'IMG_F', 'IMG_T', 'NEGT', 'NEGALL']) if method == 'poisson' else \
-                    rng.choice(['FLATG', 'IMG', 'FLATG', 'NEG', 'HUGE', 'IMGL', 'HUGE2', 'IMGG', 'FLATG_F', 'IMG_F', 'IMG_T', 'NEGT', 'NEGT', 'NEGALL'])
+                img = rng.choice(['FLAT', 'IMG', 'IMGL', 'FLATG', 'NEG', 'HUGE', 'HUGE2', 'IMG_F', 'IMG_T', 'NEGT', 'NEGALL', 'ZER']) if method == 'poisson' else \
+                    rng.choice(['FLATG', 'IMG', 'FLATG', 'NEG', 'HUGE', 'IMGL', 'HUGE2', 'IMGG', 'FLATG_F', 'IMG_F', 'IMG_T', 'NEGT', 'NEGT', 'NEGALL', 'ZER', 'ZER'])
                 E('shot_noise', ['@' + img], {'method': method, 'seed': seed()},
                   t={'distinct_expected': img in ('IMG', 'IMG_F', 'IMG_T')})
                 if img in ('IMG', 'IMGG') and rng.random() < 0.5:
@@ -420,6 +449,8 @@ class StochasticScenario(Scenario):
             pos[c] += 1
             if ev.get('fn') in SEEDED and rng.random() < 0.2:
                 ev.setdefault('t', {})['fresh'] = True
+            if ev.get('t', {}).get('twin'):
+                pass
             if ev.get('fn') in SEEDED:
                 done[c].append(ev)
             if done[c] and rng.random() < 0.15:
@@ -476,6 +507,16 @@ class StochasticScenario(Scenario):
             E('read_noise', ['@IMG', 7.5], {'seed': 3}, t={'distinct_expected': True})
             E('read_noise', ['@IMG', 7.5], {'seed': 4}, t={'distinct_expected': True})
             E('dark_current', [17.9], {'shape': [5, 7], 'fpn_factor': 0, 'seed': 1})
+            for method in ('gaussian', 'poisson'):
+                E('shot_noise', ['@IMGG'], {'method': method, 'seed': 31})
+                E('shot_noise', ['@ZER'], {'method': method, 'seed': 31})
+            E('dark_current', [40.0], {'shape': [5, 7], 'fpn_factor': 0.1, 'seed': 2})
+            E('dark_current', [40.0], {'shape': [5, 7], 'fpn_factor': 0.4, 'seed': 2}, t={'twin': True, 'fresh': True})
+            if big:
+                # a frame just over 2**20 pixels whose size is not a multiple of it: every pixel gets its noise
+                events.append({'c': -1, 'fn': 'array', 'id': 'MEGA', 'recipe': {'kind': 'const', 'shape': [1100, 1000], 'value': 500.0}})
+                E('read_noise', ['@MEGA', 7.5], {'seed': 12}, t={'mega': True})
+                events.append({'env': 'drop', 'c': 0, 'targets': ['@MEGA', '@p%d' % n[0]]})
             for rate_ in (7 - 1e-9, float(np.nextafter(100.0, 0.0)), 0.9999999, 987233471889.0, 65535.0):
                 E('dark_current', [rate_], {'shape': [3, 4], 'fpn_factor': 0, 'seed': 1})
             for method in ('poisson', 'gaussian'):
